@@ -1,10 +1,13 @@
 import SedVerif.Proofs.FitInvar
+import SedVerif.Proofs.FitStore
 import SedVerif.Properties.C01
+import SedVerif.Properties.C04
 /-!
 # C11 — fits do not depend on labelling, ordering, units of brightness, or history
 
 Property theorems only.  Model: `Model/Fit.lean` and `Model/FitExtra.lean` (`obsPts`, `obsFit2`,
-`obsFit3`, `FitterState`, `fitStep`, `fitAll`).  `ShiftRel` is defined in `Proofs/FitInvar.lean`.
+`obsFit3`, `FitterState`, `fitStep`, `fitAll`) and, for purity, `Model/FitStore.lean` (`Models.fit` as reads and
+writes on a store of array objects).  `ShiftRel` is defined in `Proofs/FitInvar.lean`.
 Everything holds over every linearly ordered field and every list length.
 -/
 namespace SF
@@ -178,6 +181,115 @@ theorem C11_history (lg : K → K) (ln10 big : K) (ln1m : K → K) (st : FitterS
   rw [C11_pure, C11_pure]
   simp only [List.getElem?_map, hi, hj, Option.map_some, fitStep, and_self]
 
+/-- **C11 (model permutation), with names.** The association name ↔ result is part of the statement: if the
+    (name, fluxes) pairs of two packages are permutations of each other, so are the (name, result) pairs
+    that the fitter returns (`info.model_name = self.names` next to the per-model arrays). -/
+theorem C11_model_perm_named (lg : K → K) (ln10 big : K) (ln1m : K → K) (st : FitterState K)
+    (names names' : List String) (models' : List (List (List K)))
+    (h : (names.zip st.models).Perm (names'.zip models')) (src : List (Obs K)) :
+    (names.zip (fitOne lg ln10 big ln1m st src)).Perm
+      (names'.zip (fitOne lg ln10 big ln1m { st with models := models' } src)) := by
+  unfold fitOne
+  simp only [List.zip_map_right]
+  exact h.map _
+
+/-- `FitInfo.sort` applied to whole rows: every column goes through the one index vector
+    `np.argsort(chi2)` of C04 (`argsortEF` + `fancyIndex`, see `C11_rankRows_columns`) -/
+def rankRows (R : List (K × K × K)) : List (K × K × K) :=
+  fancyIndex (0, 0, 0) (argsortEF (R.map (fun r => EF.fin r.2.2))) R
+
+/-- `rankRows` is `sortRows` (C04's model of `FitInfo.sort`) read row-wise -/
+theorem C11_rankRows_columns (R : List (K × K × K)) (names : List String) :
+    let x : FitRows K := { av := R.map (·.1), sc := R.map (·.2.1), chi2 := R.map (fun r => EF.fin r.2.2),
+                           name := names, fluxes := none, modelId := [] }
+    (sortRows x).av = (rankRows R).map (·.1) ∧ (sortRows x).sc = (rankRows R).map (·.2.1) ∧
+    (sortRows x).chi2 = (rankRows R).map (fun r => EF.fin r.2.2) := by
+  intro x
+  have hin : ∀ i ∈ argsortEF (R.map (fun r => EF.fin r.2.2)), i < R.length := fun i hi => by
+    simpa using argsortEF_lt _ hi
+  refine ⟨?_, ?_, ?_⟩
+  · simp only [sortRows, rankRows, fancyIndex, List.map_map, x]
+    apply List.map_congr_left
+    intro i hi
+    simp [List.getD_eq_getElem?_getD, List.getElem?_eq_getElem (hin i hi)]
+  · simp only [sortRows, rankRows, fancyIndex, List.map_map, x]
+    apply List.map_congr_left
+    intro i hi
+    simp [List.getD_eq_getElem?_getD, List.getElem?_eq_getElem (hin i hi)]
+  · simp only [sortRows, rankRows, fancyIndex, List.map_map, x]
+    apply List.map_congr_left
+    intro i hi
+    simp [List.getD_eq_getElem?_getD, List.getElem?_eq_getElem (hin i hi)]
+
+/-- **C11 (model permutation), ranked by `FitInfo.sort`.** Instance of `C11_model_perm_ranked` with C04's
+    sort: the rankings produced for two result lists that are permutations of each other (finite chi²)
+    contain the same rows and show the same chi² sequence — equal up to the order inside tie groups. -/
+theorem C11_model_perm_sorted {R R' : List (K × K × K)} (h : R.Perm R') :
+    (rankRows R).Perm (rankRows R') ∧ (rankRows R).map (·.2.2) = (rankRows R').map (·.2.2) := by
+  have hperm : ∀ T : List (K × K × K), (rankRows T).Perm T := fun T =>
+    fancyIndex_perm _ _ _ (by simpa using argsortEF_perm (T.map (fun r => EF.fin r.2.2)))
+  have hsorted : ∀ T : List (K × K × K), (rankRows T).Pairwise (fun x y => x.2.2 ≤ y.2.2) := by
+    intro T
+    have hs := argsortEF_sorted (T.map (fun r => EF.fin r.2.2))
+    rw [List.pairwise_map] at hs
+    simp only [rankRows, fancyIndex, List.pairwise_map]
+    refine hs.imp_of_mem ?_
+    intro i j hi hj hij
+    have hi' : i < T.length := by simpa using argsortEF_lt _ hi
+    have hj' : j < T.length := by simpa using argsortEF_lt _ hj
+    simpa [List.getD_eq_getElem?_getD, List.getElem?_eq_getElem hi', List.getElem?_eq_getElem hj',
+      EF.leSort] using hij
+  exact C11_model_perm_ranked h (hperm R) (hperm R') (hsorted R) (hsorted R')
+
+/-- **C11 (no array of the fitter or of a source is ever written).** `Model/FitStore.lean` spells
+    `Fitter.fit` → `Source.get_log_fluxes` → `Models.fit` (either branch) → `chi_squared` → `FitInfo.sort`
+    out as allocations, in-place updates and (re)bindings of array objects, with
+    `info.model_name = self.names` an alias that `sort` rebinds.  For every history of calls, every
+    payload (whatever is computed) and every initial store: after the history, every array object owned by
+    the fitter and every array object owned by any source holds what it held before. -/
+theorem C11_store_unchanged {C : Type} (p : Payload C) (dist : Bool) (calls : List Nat)
+    (h h' : Heap C) (hr : run h (progHistory p dist calls) = some h') :
+    ∀ l : Loc, l.owner ≠ .fresh → h'.get l = h.get l := by
+  induction calls generalizing h with
+  | nil =>
+    intro l _
+    simp only [progHistory, run, Option.some.injEq] at hr
+    rw [hr]
+  | cons k ks ih =>
+    intro l hl
+    simp only [progHistory, run_append] at hr
+    cases h1 : run h (progCall p dist k) with
+    | none => simp [h1] at hr
+    | some hm =>
+      simp only [h1, Option.bind_some] at hr
+      rw [ih hm hr l hl]
+      exact run_unchanged _ [] h hm (knownFresh_nil h) (progCall_check p dist k) h1 l hl
+
+/-- the check that carries `C11_store_unchanged` rejects both negative controls, and they do modify the fitter -/
+def exStore : Heap Nat :=
+  { cells := [(⟨.fitter, 0⟩, 10), (⟨.fitter, 1⟩, 11), (⟨.fitter, 2⟩, 12), (⟨.fitter, 3⟩, 13), (⟨.fitter, 4⟩, 14),
+              (⟨.fitter, 5⟩, 15), (srcLoc 0 0, 20), (srcLoc 0 1, 21), (srcLoc 0 2, 22), (srcLoc 1 0, 30),
+              (srcLoc 1 1, 31), (srcLoc 1 2, 32)],
+    env := fitterEnv, next := 0 }
+
+def exStorePayload : Payload Nat := { f := fun n _ => n, g := fun n c _ => c + n + 1 }
+
+/-- **C11 (negative control).** An in-place `model_fluxes += model` on log fluxes cached on the fitter, and
+    an in-place reordering of the aliased `model_name`, are rejected by the static check and do change a
+    fitter array — the store model can tell a pure fitter from an impure one. -/
+theorem C11_store_negative_control :
+    writesFreshOnly [] (progBadInPlace exStorePayload) = false ∧
+    writesFreshOnly [] (progBadNames exStorePayload) = false ∧
+    ((run exStore (progBadInPlace exStorePayload)).bind (·.get ⟨.fitter, 0⟩)) ≠ exStore.get ⟨.fitter, 0⟩ ∧
+    ((run exStore (progBadNames exStorePayload)).bind (·.get ⟨.fitter, 1⟩)) ≠ exStore.get ⟨.fitter, 1⟩ := by
+  refine ⟨rfl, rfl, ?_, ?_⟩ <;> decide
+
+/-- non-vacuity of `C11_store_unchanged`: on a store holding a fitter and two sources, a history of four
+    interleaved calls runs to completion in both modes (no unbound name) -/
+example : (run exStore (progHistory exStorePayload false [0, 1, 0, 0])).isSome = true ∧
+    (run exStore (progHistory exStorePayload true [1, 0, 1])).isSome = true := by
+  constructor <;> decide
+
 /-! ### Non-vacuity (over ℚ; `lg` is replaced by a function that is additive on the fluxes used) -/
 
 /-- the bands of `exPts` (C01), in another order -/
@@ -200,5 +312,34 @@ example : ∀ o ∈ ([⟨1, 10, 1⟩, ⟨3, 20, 1/2⟩, ⟨4, 3/2, 1/10⟩, ⟨0
 example : (∀ p ∈ exPts, p.q = (scLaw : Rat)) ∧ m11 exPts * m22 exPts - m12 exPts * m12 exPts ≠ 0
     ∧ m22 exPts ≠ 0 := by
   refine ⟨?_, ?_, ?_⟩ <;> simp [exPts, scLaw, two, m11, m12, m22, sumBy] <;> norm_num
+
+
+/-- one concrete instance meeting ALL hypotheses of `C11_scale` jointly (bands 1, 3, 4, 0; `c = 2`; `ln 10` replaced
+    by 2): scaled source, `lg` additive on its fluxes, non-singular regression, `c ≠ 0` -/
+def exScaleOs : List (Obs Rat) := [⟨1, 10, 1⟩, ⟨3, 20, 1/2⟩, ⟨4, 3/2, 1/10⟩, ⟨0, -999, -999⟩]
+def exScaleOs' : List (Obs Rat) := [⟨1, 20, 2⟩, ⟨3, 40, 1/2⟩, ⟨4, 5/2, 1/10⟩, ⟨0, 7, 7⟩]
+def exKs : List Rat := [-1/2, -1/3, -1/5, -1/10]
+def exMf : List Rat := [1, 2, 1/2, 0]
+
+example : (2 : Rat) ≠ 0 ∧ List.Forall₂ (ScaledObs exLg 2) exScaleOs exScaleOs' ∧
+    (∀ o ∈ exScaleOs, (o.flag = 1 ∨ o.flag = 2 ∨ o.flag = 3) → exLg (2 * o.flux) = exLg 2 + exLg o.flux) ∧
+    m11 (obsPts exLg 2 exScaleOs exKs exMf) * m22 (obsPts exLg 2 exScaleOs exKs exMf)
+      - m12 (obsPts exLg 2 exScaleOs exKs exMf) * m12 (obsPts exLg 2 exScaleOs exKs exMf) ≠ 0 ∧
+    m22 (obsPts exLg 2 exScaleOs exKs exMf) ≠ 0 := by
+  refine ⟨by norm_num, ?_, ?_, ?_, ?_⟩
+  · simp [ScaledObs, exLg, exScaleOs, exScaleOs']; norm_num
+  · simp [exLg, exScaleOs]; norm_num
+  · simp [obsPts, exScaleOs, exKs, exMf, mkPts, logTransform, exLg, absK, two, scLaw, m11, m12, m22, sumBy]
+    norm_num
+  · simp [obsPts, exScaleOs, exKs, exMf, mkPts, logTransform, exLg, absK, two, scLaw, m22, sumBy]
+    norm_num
+
+/-- … and of `C11_filter_perm_source`: the same source with bands 0 and 2 exchanged, model fluxes and coefficients alike -/
+example : (exScaleOs.zip (exMf.zip exKs)).Perm
+    ([exScaleOs[2], exScaleOs[1], exScaleOs[0], exScaleOs[3]].zip
+      ([exMf[2], exMf[1], exMf[0], exMf[3]].zip [exKs[2], exKs[1], exKs[0], exKs[3]])) := by
+  simp only [exScaleOs, exMf, exKs, List.zip_cons_cons, List.zip_nil_right, List.getElem_cons_zero,
+    List.getElem_cons_succ]
+  exact ((List.Perm.swap _ _ _).trans ((List.Perm.swap _ _ _).cons _)).trans (List.Perm.swap _ _ _)
 
 end SF
